@@ -20,7 +20,7 @@ func init() {
 		ID:         "C06",
 		Level:      "fault_enumeration",
 		Exhaustive: true,
-		Rule: "base tokens = {delegation, invocation} x key algorithms x {minimal, all optionals, nested} payload shapes (quick: 2 Ed25519 + 2 other-algorithm tokens; thorough: all 7 pool key kinds x 2 types x 3 shapes). Fault enumeration on each sealed token: EVERY single-bit flip (exhaustive for Ed25519 bases, 1-in-4 sampled for the others in quick, exhaustive in thorough); every offset x {delete, insert 0x00/0xFF/duplicate, substitute}; field-level rewrites with the old signature (each payload field <- another valid value); signature replaced (other key, other token of the same issuer, every truncation incl. empty, zeroed, junk of 21 lengths from 1 to 70000 bytes alone and on a rewritten payload, real signature extended); header replaced by each other algorithm's header, unsigned and re-signed with the issuer key; envelope shape edits (extra SigPayload key, payload under the other tag, both re-signed); the field-level mutants also as DAG-JSON text plus character edits. Every mutant is offered to every decoder of its codec (token.*, delegation.* / invocation.*, bytes and reader). " +
+		Rule: "base tokens = {delegation, invocation} x key algorithms x {minimal, all optionals, nested} payload shapes (quick: 2 Ed25519 + 2 other-algorithm tokens; thorough: all 7 pool key kinds x 2 types x 3 shapes). Fault enumeration on each sealed token: EVERY single-bit flip (exhaustive for Ed25519 bases, 1-in-4 sampled for the others in quick, exhaustive in thorough); every offset x {delete, insert 0x00/0xFF/duplicate, substitute}; field-level rewrites with the old signature (each payload field <- another valid value); signature replaced (other key, other token of the same issuer, every truncation incl. empty, zeroed, junk of 21 lengths from 1 to 70000 bytes alone and on a rewritten payload, real signature extended); header replaced by each other algorithm's header, unsigned and re-signed with the issuer key, and by 11 variants of the issuer's own header (other payload-encoding / hash / length segment, dropped, appended or inserted segments) re-signed by the issuer; envelope shape edits (extra SigPayload key, payload under the other tag, both re-signed); the field-level mutants also as DAG-JSON text plus character edits. Every mutant is offered to every decoder of its codec (token.*, delegation.* / invocation.*, bytes and reader). " +
 			"Oracles on every accepted mutant: (O1) no field differs from the original token; (O2) an independent envelope verifier (own did:key -> key extraction, canonical re-encoding, header/key-type match) accepts it; (O3) the returned token's accessors equal the decoded payload. " +
 			"non-trivial = mutant that still parses as CBOR/JSON; distinct = mutant bytes.",
 		Assumptions: []string{
@@ -32,7 +32,7 @@ func init() {
 		MinEvals:    floor(200000, 3000000),
 		MinDistinct: floor(8000, 150000),
 		RequiredCells: func(string) []string {
-			return []string{"mut/bitflip", "mut/delete", "mut/insert", "mut/substitute", "mut/field-rewrite", "mut/sig-other-key", "mut/sig-transplant", "mut/sig-truncated", "mut/sig-zeroed", "mut/sig-junk", "mut/sig-junk-on-rewritten-payload", "mut/sig-extended", "mut/header-swap", "mut/header-swap-resigned", "mut/extra-key-resigned", "mut/other-tag-resigned", "mut/json-field-rewrite", "mut/json-char-edit",
+			return []string{"mut/bitflip", "mut/delete", "mut/insert", "mut/substitute", "mut/field-rewrite", "mut/sig-other-key", "mut/sig-transplant", "mut/sig-truncated", "mut/sig-zeroed", "mut/sig-junk", "mut/sig-junk-on-rewritten-payload", "mut/sig-extended", "mut/header-swap", "mut/header-swap-resigned", "mut/own-header-variant-resigned", "mut/extra-key-resigned", "mut/other-tag-resigned", "mut/json-field-rewrite", "mut/json-char-edit",
 				"outcome/rejected", "outcome/accepted-same-content", "base/dlg", "base/inv", "base/ed25519", "base/non-ed25519"}
 		},
 	})
@@ -470,6 +470,45 @@ func runC06(w *mon.W) {
 				}
 			}
 			_ = hname
+		}
+		// 5b. variants of the issuer's OWN header (same algorithm prefix, other tail), re-signed by
+		// the issuer over exactly that header: only the exact header of the key type is acceptable
+		{
+			h := b.info.Header
+			variants := map[string][]byte{
+				"last-byte-raw":   append(append([]byte{}, h[:len(h)-1]...), 0x55),
+				"last-byte-json":  append(append([]byte{}, h[:len(h)-1]...), 0xa9, 0x02),
+				"tail-dropped":    append([]byte{}, h[:len(h)-1]...),
+				"tail-junk":       append(append([]byte{}, h...), 0x00),
+				"tail-junk2":      append(append([]byte{}, h...), 0x71),
+				"first-byte":      append([]byte{0x35}, h[1:]...),
+				"empty":           {},
+				"prefix-only":     append([]byte{}, h[:1]...),
+				"doubled":         append(append([]byte{}, h...), h...),
+			}
+			if len(h) > 4 {
+				mid := append([]byte{}, h...)
+				mid[len(h)-2] ^= 0x01 // hash / length segment
+				variants["middle-segment"] = mid
+				ins := append(append(append([]byte{}, h[:len(h)-1]...), 0x80, 0x04), h[len(h)-1])
+				variants["segment-inserted"] = ins
+			}
+			for name, hv := range variants {
+				if bytes.Equal(hv, h) {
+					continue
+				}
+				if re, err := ref.SignEnvelope(def.iss.Priv, hv, b.info.Tag, b.info.Payload); err == nil {
+					if enc, err := ref.EncodeDagCbor(re); err == nil {
+						c06Offer(w, b, "own-header-variant-resigned", enc, "dagcbor", decs)
+					}
+					if b.json != nil {
+						if enc, err := ref.EncodeDagJson(re); err == nil {
+							c06Offer(w, b, "own-header-variant-resigned", enc, "dagjson", decs)
+						}
+					}
+				}
+				_ = name
+			}
 		}
 		// 6. envelope shape edits, re-signed by the issuer
 		if mine() {
